@@ -290,6 +290,7 @@ void Sim::runTask(int id, int wi, int kind) {
     if (kind == PK_WAIT) stats.deferredToWait += 1;
     if (t.createdBeforeScribble) stats.ranAfterScribble += 1;
     stats.startedAt[kind] += 1;
+    tasksStarted += 1;
     eventHash = mix64(eventHash, 0x50000000ULL ^ (uint64_t(id) << 32) ^ (uint64_t(uint32_t(t.worker)) << 8) ^ uint64_t(depth));
 
     const int savedTask = curTask, savedWorker = curWorker;
@@ -398,9 +399,9 @@ void Sim::waitAll() {
         scribble();
     }
     while (unfinished > 0) {
-        const long before = unfinished;
+        const long before = tasksStarted;
         point(PK_WAIT);
-        if (unfinished == before) {
+        if (tasksStarted == before) {
             stats.stuck += 1;
             errors.push_back("stuck: unfinished tasks but none can start (depth " + std::to_string(depth) + ")");
             break;
@@ -412,9 +413,9 @@ void Sim::waitChildren() {
     if (!active) return;
     if (curTask < 0) { waitAll(); return; }
     while (tasks[curTask]->unfinishedChildren > 0) {
-        const long before = unfinished;
+        const long before = tasksStarted;
         point(PK_WAIT);
-        if (unfinished == before) {
+        if (tasksStarted == before) {
             stats.stuck += 1;
             errors.push_back("stuck in nested taskwait (unsupported by the nesting simulator)");
             break;
